@@ -1,14 +1,15 @@
 package storesim
 
 import (
-	"verif/engines/knobs"
 	"context"
 	"encoding/json"
 	"errors"
 	"fmt"
 	"os"
 	"path/filepath"
+	"perkeep.org/pkg/blobserver/blobpacked"
 	"strings"
+	"verif/engines/knobs"
 
 	"perkeep.org/pkg/blobserver"
 
@@ -299,6 +300,16 @@ func (s *session) build() (err error) {
 		return err
 	}
 	s.sto = sto
+	if s.cfg.ZipMax > 0 {
+		s.cfg.Root.Walk(func(n *sim.Node) {
+			if n.Type != "blobpacked" {
+				return
+			}
+			if st, gerr := s.world.GetStorage("/" + n.Name + "/"); gerr == nil {
+				blobpacked.VerifSetMaxZipBlobSize(st, s.cfg.ZipMax)
+			}
+		})
+	}
 	return nil
 }
 
